@@ -50,6 +50,12 @@ use core::marker::PhantomData;
 impl<T> Clone for Index<T> {
     fn clone(&self) -> (r: Self) ensures r.idx == self.idx { Index { idx: self.idx, phantom: PhantomData } }
 }
+impl<T> Index<T> {
+//@fn rel=crates/pico/src/index.rs name=new within="impl<T> Index<T>" vis=pub ret=r
+//@contract
+        ensures r.idx == idx,
+//@end
+}
 
 // =====================================================================================
 // Extracted types
@@ -773,6 +779,217 @@ impl FileSystemState {
                 }
 //@end
 
+}
+
+// ---------------- From<&[ArtifactPathAndContent]>: the state reflects the artifact list ----------------
+//@item rel=crates/common_lang_types/src/entity_and_selectable_name.rs kind=struct name=EntityNameAndSelectableName prefix="#[derive(Clone, Copy)] pub"
+//@item rel=crates/common_lang_types/src/path_and_content.rs kind=struct name=ArtifactPath prefix="pub"
+//@item rel=crates/common_lang_types/src/path_and_content.rs kind=struct name=ArtifactPathAndContent prefix="pub"
+pub enum PersistedDocumentsHashAlgorithm { Md5, Sha256 }
+/// md5 of the content (operation_text::hash + ArtifactHash::from): an uninterpreted
+/// function of the content; equal hashes are taken to mean equal contents (assumption)
+pub uninterp spec fn content_hash(c: FileContent) -> ArtifactHash;
+pub struct HashString { pub h: ArtifactHash }
+#[verifier::external_body]
+pub fn hash(data: &FileContent, algorithm: PersistedDocumentsHashAlgorithm) -> (r: HashString)
+    ensures r.h == content_hash(*data)
+{ unimplemented!() }
+impl ArtifactHash {
+    pub fn from(s: HashString) -> (r: ArtifactHash) ensures r == s.h { s.h }
+}
+/// std HashMap::entry(k).or_default() for the two nesting levels of `nested_files`
+#[verifier::external_body]
+pub fn entry_or_default_1<'a>(m: &'a mut HashMap<u64, HashMap<u64, HashMap<u64, (Index<FileContent>, ArtifactHash)>>>, k: u64)
+    -> (r: &'a mut HashMap<u64, HashMap<u64, (Index<FileContent>, ArtifactHash)>>)
+    ensures
+        old(m)@.contains_key(k) ==> *r == old(m)@[k],
+        !old(m)@.contains_key(k) ==> r@ == Map::<u64, HashMap<u64, (Index<FileContent>, ArtifactHash)>>::empty(),
+        final(m)@ == old(m)@.insert(k, *final(r)),
+{ unimplemented!() }
+#[verifier::external_body]
+pub fn entry_or_default_2<'a>(m: &'a mut HashMap<u64, HashMap<u64, (Index<FileContent>, ArtifactHash)>>, k: u64)
+    -> (r: &'a mut HashMap<u64, (Index<FileContent>, ArtifactHash)>)
+    ensures
+        old(m)@.contains_key(k) ==> *r == old(m)@[k],
+        !old(m)@.contains_key(k) ==> r@ == Map::<u64, (Index<FileContent>, ArtifactHash)>::empty(),
+        final(m)@ == old(m)@.insert(k, *final(r)),
+{ unimplemented!() }
+
+pub open spec fn art_root(a: ArtifactPathAndContent) -> bool { a.artifact_path.type_and_field is None }
+pub open spec fn art_e(a: ArtifactPathAndContent) -> u64 { a.artifact_path.type_and_field->Some_0.parent_entity_name }
+pub open spec fn art_s(a: ArtifactPathAndContent) -> u64 { a.artifact_path.type_and_field->Some_0.selectable_name }
+pub open spec fn art_f(a: ArtifactPathAndContent) -> u64 { a.artifact_path.file_name }
+pub open spec fn same_path(a: ArtifactPathAndContent, b: ArtifactPathAndContent) -> bool {
+    art_f(a) == art_f(b) && art_root(a) == art_root(b) && (!art_root(a) ==> art_e(a) == art_e(b) && art_s(a) == art_s(b))
+}
+/// artifact i is the last one with its path among the first n (later duplicates win)
+pub open spec fn last_of_path(arts: Seq<ArtifactPathAndContent>, n: int, i: int) -> bool {
+    0 <= i < n && forall|j: int| i < j < n ==> !same_path(arts[i], #[trigger] arts[j])
+}
+/// Rust: a slice never has more than usize::MAX elements
+#[verifier::external_body]
+pub proof fn axiom_slice_len<T>(s: &[T]) ensures s@.len() <= usize::MAX {}
+
+pub open spec fn nhas(nf: EntMap, e: u64, s: u64, f: u64) -> bool {
+    nf.contains_key(e) && nf[e]@.contains_key(s) && nf[e]@[s]@.contains_key(f)
+}
+pub open spec fn nval(nf: EntMap, e: u64, s: u64, f: u64) -> (Index<FileContent>, ArtifactHash) { nf[e]@[s]@[f] }
+/// effect of `nested.entry(e).or_default().entry(s).or_default().insert(f, v)` on the
+/// three-level map, stated for all keys
+pub proof fn lemma_nested_insert(o: EntMap, n: EntMap, e: u64, s: u64, f: u64, v: (Index<FileContent>, ArtifactHash),
+    m1: HashMap<u64, HashMap<u64, (Index<FileContent>, ArtifactHash)>>, m2: HashMap<u64, (Index<FileContent>, ArtifactHash)>)
+    requires
+        n == o.insert(e, m1),
+        m1@ == (if o.contains_key(e) { o[e]@ } else { Map::empty() }).insert(s, m2),
+        m2@ == (if o.contains_key(e) && o[e]@.contains_key(s) { o[e]@[s]@ } else { Map::empty() }).insert(f, v),
+    ensures
+        forall|e2: u64, s2: u64, f2: u64| #[trigger] nhas(n, e2, s2, f2) <==> (nhas(o, e2, s2, f2) || (e2 == e && s2 == s && f2 == f)),
+        forall|e2: u64, s2: u64, f2: u64| nhas(o, e2, s2, f2) && !(e2 == e && s2 == s && f2 == f) ==> #[trigger] nval(n, e2, s2, f2) == nval(o, e2, s2, f2),
+        nval(n, e, s, f) == v,
+{
+    assert forall|e2: u64, s2: u64, f2: u64| #[trigger] nhas(n, e2, s2, f2) <==> (nhas(o, e2, s2, f2) || (e2 == e && s2 == s && f2 == f)) by {
+        if e2 == e {
+            assert(n[e2] == m1);
+            if s2 == s { assert(m1@[s2] == m2); }
+        }
+    }
+    assert forall|e2: u64, s2: u64, f2: u64| nhas(o, e2, s2, f2) && !(e2 == e && s2 == s && f2 == f) implies #[trigger] nval(n, e2, s2, f2) == nval(o, e2, s2, f2) by {
+        if e2 == e {
+            assert(n[e2] == m1);
+            if s2 == s { assert(m1@[s2] == m2); }
+        }
+    }
+    assert(n[e] == m1 && m1@[s] == m2);
+}
+
+impl FileSystemState {
+    /// the state holds exactly the (last) artifact of every path among the first n, with its
+    /// index in the artifact list and the hash of its content
+    pub open spec fn reflects(&self, arts: Seq<ArtifactPathAndContent>, n: int) -> bool {
+        &&& forall|f: u64| #[trigger] self.has_root(f) ==> {
+                let i = self.root_idx(f) as int;
+                last_of_path(arts, n, i) && art_root(arts[i]) && art_f(arts[i]) == f && self.root_hash(f) == content_hash(arts[i].file_content)
+            }
+        &&& forall|e: u64, s: u64, f: u64| #[trigger] self.has_nested(e, s, f) ==> {
+                let i = self.nested_idx(e, s, f) as int;
+                last_of_path(arts, n, i) && !art_root(arts[i]) && art_e(arts[i]) == e && art_s(arts[i]) == s && art_f(arts[i]) == f
+                    && self.nested_hash(e, s, f) == content_hash(arts[i].file_content)
+            }
+        &&& forall|i: int| #[trigger] last_of_path(arts, n, i) ==>
+                (art_root(arts[i]) ==> self.has_root(art_f(arts[i])) && self.root_idx(art_f(arts[i])) == i)
+                && (!art_root(arts[i]) ==> self.has_nested(art_e(arts[i]), art_s(arts[i]), art_f(arts[i]))
+                    && self.nested_idx(art_e(arts[i]), art_s(arts[i]), art_f(arts[i])) == i)
+    }
+    /// every content index stored in the state addresses the artifact list
+    pub open spec fn indices_below(&self, n: int) -> bool {
+        &&& forall|f: u64| #[trigger] self.has_root(f) ==> self.root_idx(f) < n
+        &&& forall|e: u64, s: u64, f: u64| #[trigger] self.has_nested(e, s, f) ==> self.nested_idx(e, s, f) < n
+    }
+
+//@fn rel=crates/artifact_content/src/file_system_state.rs name=from within="impl From<&[ArtifactPathAndContent]> for FileSystemState" vis=pub ret=r rename=from_artifacts serves=C18
+//@rw R14 R4
+//@hsub "-> Self" => "-> FileSystemState"
+//@sub "let mut root_files = HashMap::new\(\);" => "let mut root_files: HashMap<u64, (Index<FileContent>, ArtifactHash)> = HashMap::new();" n=1
+//@sub "for artifact in artifacts\.iter\(\) \{" => "for artifact in ita: artifacts.iter() {" n=1
+//@sub "nested_files\s*\.entry\(type_and_field\.parent_entity_name\)\s*\.or_default\(\)\s*\.entry\(type_and_field\.selectable_name\)\s*\.or_default\(\)\s*\.insert\(" => "entry_or_default_2(entry_or_default_1(&mut nested_files, type_and_field.parent_entity_name), type_and_field.selectable_name).insert(" n=1
+//@contract
+        ensures
+            r.reflects(artifacts@, artifacts@.len() as int), //@O C18.O-1_state_reflects_the_artifact_list
+            r.indices_below(artifacts@.len() as int), //@O C18.O-1_state_indices_address_the_artifact_list
+//@loop 1
+            invariant
+                index == ita.index@,
+                ita.seq().len() == artifacts@.len(),
+                forall|k: int| 0 <= k < ita.seq().len() ==> *(#[trigger] ita.seq()[k]) == artifacts@[k],
+                index <= artifacts@.len(), artifacts@.len() <= usize::MAX,
+                (FileSystemState { root_files, nested_files }).reflects(artifacts@, index as int),
+//@before "let mut root_files"
+        proof { axiom_slice_len(artifacts); }
+//@bodystart 1
+            let ghost rf0 = root_files@;
+            let ghost nf0 = nested_files@;
+            let ghost st0 = FileSystemState { root_files, nested_files };
+            proof { assert(index < artifacts@.len()); assert(*artifact == artifacts@[index as int]); }
+//@after "root_files.insert(artifact.artifact_path.file_name, value);" opt
+                    proof { assert(root_files@ == rf0.insert(artifact.artifact_path.file_name, value)); assert(nested_files@ == nf0); }
+//@after "entry_or_default_2(entry_or_default_1(" opt
+                    proof {
+                        let e = type_and_field.parent_entity_name; let s = type_and_field.selectable_name; let f = artifact.artifact_path.file_name;
+                        let m1 = nested_files@[e]; let m2 = m1@[s];
+                        assert(root_files@ == rf0);
+                        lemma_nested_insert(nf0, nested_files@, e, s, f, value, m1, m2);
+                    }
+//@before "index += 1;"
+            proof {
+                let arts = artifacts@; let k = index as int; let a = arts[k];
+                let st = FileSystemState { root_files, nested_files };
+                assert(st0.reflects(arts, k));
+                assert(value.0.idx == k && value.1 == content_hash(a.file_content));
+                if art_root(a) {
+                    assert(st.root_files@ == st0.root_files@.insert(art_f(a), value));
+                    assert(st.nested_files@ == st0.nested_files@);
+                    assert forall|e2: u64, s2: u64, f2: u64| st.has_nested(e2, s2, f2) == st0.has_nested(e2, s2, f2) by {}
+                } else {
+                    assert(st.root_files@ == st0.root_files@);
+                    assert forall|e2: u64, s2: u64, f2: u64| st.has_nested(e2, s2, f2) == nhas(st.nested_files@, e2, s2, f2) by {}
+                    assert forall|e2: u64, s2: u64, f2: u64| st0.has_nested(e2, s2, f2) == nhas(st0.nested_files@, e2, s2, f2) by {}
+                }
+                // later artifacts never disturb an entry of a different path
+                assert forall|i: int| 0 <= i < k && last_of_path(arts, k, i) && !same_path(arts[i], a) implies #[trigger] last_of_path(arts, k + 1, i) by {
+                    assert forall|j: int| i < j < k + 1 implies !same_path(arts[i], #[trigger] arts[j]) by {}
+                }
+                assert(last_of_path(arts, k + 1, k));
+                assert forall|i: int| #[trigger] last_of_path(arts, k + 1, i) implies (i == k || (last_of_path(arts, k, i) && !same_path(arts[i], a))) by {
+                    if i != k {
+                        assert(!same_path(arts[i], arts[k]));
+                        assert forall|j: int| i < j < k implies !same_path(arts[i], #[trigger] arts[j]) by {}
+                    }
+                }
+                // roots
+                assert forall|f2: u64| #[trigger] st.has_root(f2) implies ({
+                        let i = st.root_idx(f2) as int;
+                        last_of_path(arts, k + 1, i) && art_root(arts[i]) && art_f(arts[i]) == f2 && st.root_hash(f2) == content_hash(arts[i].file_content)
+                    }) by {
+                    if art_root(a) && f2 == art_f(a) {
+                    } else {
+                        assert(st0.has_root(f2));
+                        let i = st0.root_idx(f2) as int;
+                        assert(!same_path(arts[i], a));
+                    }
+                }
+                // nested
+                assert forall|e2: u64, s2: u64, f2: u64| #[trigger] st.has_nested(e2, s2, f2) implies ({
+                        let i = st.nested_idx(e2, s2, f2) as int;
+                        last_of_path(arts, k + 1, i) && !art_root(arts[i]) && art_e(arts[i]) == e2 && art_s(arts[i]) == s2 && art_f(arts[i]) == f2
+                            && st.nested_hash(e2, s2, f2) == content_hash(arts[i].file_content)
+                    }) by {
+                    if !art_root(a) && e2 == art_e(a) && s2 == art_s(a) && f2 == art_f(a) {
+                        assert(nval(st.nested_files@, e2, s2, f2) == value);
+                    } else {
+                        assert(st0.has_nested(e2, s2, f2));
+                        if !art_root(a) { assert(nval(st.nested_files@, e2, s2, f2) == nval(st0.nested_files@, e2, s2, f2)); }
+                        let i = st0.nested_idx(e2, s2, f2) as int;
+                        assert(!same_path(arts[i], a));
+                    }
+                }
+                // completeness
+                assert forall|i: int| #[trigger] last_of_path(arts, k + 1, i) implies
+                    ((art_root(arts[i]) ==> st.has_root(art_f(arts[i])) && st.root_idx(art_f(arts[i])) == i)
+                    && (!art_root(arts[i]) ==> st.has_nested(art_e(arts[i]), art_s(arts[i]), art_f(arts[i]))
+                        && st.nested_idx(art_e(arts[i]), art_s(arts[i]), art_f(arts[i])) == i)) by {
+                    if i == k {
+                        if !art_root(a) { assert(nval(st.nested_files@, art_e(a), art_s(a), art_f(a)) == value); }
+                    } else {
+                        assert(last_of_path(arts, k, i) && !same_path(arts[i], a));
+                        if !art_root(arts[i]) {
+                            assert(st0.has_nested(art_e(arts[i]), art_s(arts[i]), art_f(arts[i])));
+                            if !art_root(a) { assert(nval(st.nested_files@, art_e(arts[i]), art_s(arts[i]), art_f(arts[i])) == nval(st0.nested_files@, art_e(arts[i]), art_s(arts[i]), art_f(arts[i]))); }
+                        }
+                    }
+                }
+                assert(st.reflects(arts, k + 1));
+            }
+//@end
 }
 
 } // verus!
